@@ -262,6 +262,63 @@ class RiemannPointEOS(Obligation):
         cx.eq('right of the contact: p=(gr-1)*rho*e', p, (cx['gr'] - 1) * rho * e, when=right)
 
 
+class RmtvEOS(Obligation):
+    """RMTV rmtv_1d (root find, quadrature and ODE integration replaced by contract stubs): the returned temperature, energy,
+    pressure and density obey p = (gamma-1) rho e and e = Gamma T/(gamma-1) in the documented units
+    (energy in erg/g = 1e16 jerk, temperature in eV = 1e-3 keV: e (gamma-1) = Gamma T * 1e13);  also serves C06: the module
+    globals are set to arbitrary symbols first and no output may depend on them."""
+
+    def __init__(self):
+        from . import guderley_common as G
+        self.G = G
+        self.m = H.mod('exactpack.solvers.rmtv.timmes')
+        self.id = 'C03.rmtv'
+        self.modules = [self.m]
+        from symx.engine import current
+
+        def quad(f, a, b, **kw):
+            return (current().fresh('quad'), 0.0)
+        self.extra_shim = {'solve_ivp': G.solve_ivp_stub, 'quad': quad, 'print': H.quiet_print}
+        self.functions = [self.m.rmtv_1d, self.m.derivs]
+        self.bounds = 'all eleven arguments of rmtv_1d symbolic; brentq/quad/solve_ivp replaced by fresh values; module globals pre-set to arbitrary symbols; every branch = path'
+        self.skip_validation = True
+        self.max_paths = 200
+
+    GL = ('aval', 'bval', 'xif', 'beta0', 'xgeom', 'alpha', 'amu', 'kappa', 'sigma')
+
+    def build(self, mk):
+        names = ('rpos', 'aval_in', 'bval_in', 'chi0', 'gamma', 'bigamma', 'rf', 'xif_in', 'xis', 'beta0_in', 'g0')
+        if Mode.symbolic(mk):
+            for g in self.GL:
+                setattr(self.m, g, mk('pre_' + g))
+            out = self.m.rmtv_1d(*[mk(n) for n in names])
+        else:
+            # replay on the real numerics at the documented default problem, with the witness's Gruneisen coefficient and gamma
+            from exactpack.solvers.rmtv import Rmtv
+            d = Rmtv()
+            kw = dict(aval_in=d.aval, bval_in=d.bval, chi0=d.chi0, gamma=abs(mk('gamma') - 1) + 1.05, bigamma=abs(mk('bigamma')) + 0.5,
+                      rf=d.rf, xif_in=d.xif, xis=d.xis, beta0_in=d.beta0, g0=d.g0)
+            out = self.m.rmtv_1d(0.5 * d.rf, *[kw[n] for n in names[1:]])
+            return dict(zip(('density', 'temperature', 'energy', 'pressure', 'velocity'), out), _gamma=kw['gamma'], _Gamma=kw['bigamma'])
+        return dict(zip(('density', 'temperature', 'energy', 'pressure', 'velocity'), out), _gamma=mk('gamma'), _Gamma=mk('bigamma'))
+
+    def domain(self, V):
+        return [T.gt(V(n), T.ZERO) for n in ('rpos', 'chi0', 'bigamma', 'rf', 'xif_in', 'xis', 'beta0_in', 'g0')] + [T.gt(V('gamma'), T.ONE)]
+
+    def claims(self, cx):
+        g, G = cx['_gamma'], cx['_Gamma']
+        p, rho, e, Tm = cx['pressure'], cx['density'], cx['energy'], cx['temperature']
+        cx.eq('p=(gamma-1)*rho*e', p, (g - 1) * rho * e)
+        cx.eq('e=Gamma*T/(gamma-1) (erg/g vs eV: factor 1e13)', e * (g - 1), G * Tm * 10 ** 13)
+        if cx.symbolic:
+            for k in ('density', 'temperature', 'energy', 'pressure', 'velocity'):
+                t = H.term_of(cx[k])
+                sub = {T.var(nm): T.var(nm + '_alt') for nm in T.free_vars(t) if nm.startswith('pre_')}
+                if sub:
+                    from symx.engine import SymReal
+                    cx.eq('%s does not depend on module globals left by earlier evaluations' % k, cx[k], SymReal(T.substitute(t, sub)))
+
+
 def obligations(tier):
     obs = []
     for g in (1, 2, 3):
@@ -277,6 +334,7 @@ def obligations(tier):
     for g in (1, 2, 3):
         for gam in ([Fraction(7, 5)] if tier == 'quick' else H.G_FULL):
             obs.append(SedovEOS(g, gam))
+    obs.append(RmtvEOS())
     from . import riemann_common as R
     for gl, gr in ([(Fraction(5, 3), Fraction(7, 5))] if tier == 'quick' else R.GAMMA_PAIRS_FULL):
         for pat in ('SCS', 'SCR', 'RCS', 'RCR'):
